@@ -36,7 +36,7 @@ ASSUMPTIONS = [
 ]
 SETTINGS: Dict[str, Dict[str, Any]] = {
     "quick": {"cases": 500, "cli_cases": 48, "budget_s": 50, "minimums": {"cuts_checked": 3000, "nontrivial": 1500, "todate_pairs": 500, "cli_pairs": 3, "todate_pairs_with_a_row_at_the_midnight_after_the_to_date": 150, "histories_with_a_method_change_in_a_year_without_transactions": 25}},
-    "thorough": {"cases": 30000, "cli_cases": 150, "budget_s": 420, "minimums": {"cuts_checked": 150000, "nontrivial": 80000, "todate_pairs": 25000, "cli_pairs": 75, "todate_pairs_with_a_row_at_the_midnight_after_the_to_date": 8000, "histories_with_a_method_change_in_a_year_without_transactions": 1200}},
+    "thorough": {"cases": 30000, "cli_cases": 150, "budget_s": 420, "minimums": {"cuts_checked": 90000, "nontrivial": 48000, "todate_pairs": 15000, "cli_pairs": 45, "todate_pairs_with_a_row_at_the_midnight_after_the_to_date": 4800, "histories_with_a_method_change_in_a_year_without_transactions": 720}},
 }
 PROFILES = [
     Profile(max_events=14, min_events=5),
